@@ -1014,6 +1014,61 @@ func (g *gen) structs() {
 		"for _, p := range ps {", "t += p.X + p.Y", "}", "ps[0].X = 10", "fmt.Println(t, len(ps), ps[0].X, ps[2].Y)"))
 }
 
+// struct values are copied, at every nesting depth, by :=, by =, when bound to
+// a by-value parameter or receiver, when returned, and when stored into a
+// field, a slice element or a map value: a write through the copy to a field
+// of the innermost struct must not show through the original, and vice versa.
+func (g *gen) structCopies() {
+	maxDepth := 4
+
+	for d := 1; d <= maxDepth; d++ {
+		// L1 is the innermost struct; Ld nests L(d-1) in its field In
+		decl := "type L1§ struct {\nV int\nS string\n}"
+		lit := "L1§{V: 3, S: \"s\"}"
+		path := "V"
+
+		for k := 2; k <= d; k++ {
+			decl += fmt.Sprintf("\ntype L%d§ struct {\nIn L%d§\nN int\n}", k, k-1)
+			lit = fmt.Sprintf("L%d§{In: %s, N: %d}", k, lit, k)
+			path = "In." + path
+		}
+
+		T := fmt.Sprintf("L%d§", d)
+		typ := fmt.Sprint("depth", d)
+		mk := "a := " + lit
+		both := func(x, y string) string { return fmt.Sprintf("fmt.Println(%s.%s, %s.%s)", x, path, y, path) }
+
+		g.add("struct-copy-define", typ, "", decl, lines(mk,
+			"b := a", "b."+path+" = 99", both("a", "b"),
+			"a."+path+" = 5", both("a", "b"),
+			"c := b", "c."+path+" = 7", both("b", "c"), "fmt.Println(a."+path+")"))
+		g.add("struct-copy-assign", typ, "", decl, lines(mk,
+			"var b "+T, "fmt.Println(b."+path+")", "b = a", "b."+path+" = 99", both("a", "b"),
+			"a."+path+" = 5", both("a", "b"),
+			"b = a", both("a", "b"), "b."+path+" = 8", both("a", "b")))
+		g.add("struct-copy-param", typ, "", decl+fmt.Sprintf("\nfunc mut§(s %s) int {\ns.%s = 99\nreturn s.%s\n}", T, path, path), lines(mk,
+			"fmt.Println(mut§(a))", "fmt.Println(a."+path+")", "r := mut§(a)", "fmt.Println(r, a."+path+")"))
+		g.add("struct-copy-return", typ, "", decl+fmt.Sprintf("\nfunc chg§(s %s) %s {\ns.%s = s.%s * 10\nreturn s\n}", T, T, path, path), lines(mk,
+			"d := chg§(a)", both("a", "d"), "d."+path+" = 1", both("a", "d"), "e := chg§(d)", both("d", "e")))
+		g.add("struct-copy-receiver", typ, "", decl+fmt.Sprintf("\nfunc (s %s) Mut() int {\ns.%s = 99\nreturn s.%s\n}\nfunc (s *%s) Set(v int) {\ns.%s = v\n}", T, path, path, T, path), lines(mk,
+			"fmt.Println(a.Mut())", "fmt.Println(a."+path+")", "a.Set(6)", "fmt.Println(a."+path+")", "b := a", "b.Set(7)", both("a", "b")))
+		g.add("struct-copy-field", typ, "", decl+fmt.Sprintf("\ntype Box§ struct {\nItem %s\nK int\n}", T), lines(mk,
+			"bx := Box§{K: 1}", "bx.Item = a", "bx.Item."+path+" = 99", both("a", "bx.Item"),
+			"by := Box§{Item: a, K: 2}", "a."+path+" = 5", both("a", "by.Item"), both("bx.Item", "by.Item"),
+			"bz := by", "bz.Item."+path+" = 4", both("by.Item", "bz.Item"), "fmt.Println(bx.K, by.K, bz.K)"))
+		g.add("struct-copy-elem", typ, "", decl, lines(mk,
+			fmt.Sprintf("s := []%s{a}", T), "s[0]."+path+" = 99", both("a", "s[0]"),
+			"s = append(s, a)", "a."+path+" = 5", both("a", "s[1]"), both("s[0]", "s[1]"),
+			"c := s[1]", "c."+path+" = 7", both("c", "s[1]"),
+			"for _, e := range s {", "e."+path+" = 1", "}", both("s[0]", "s[1]"), "fmt.Println(len(s))"))
+		g.add("struct-copy-mapval", typ, "", decl, lines(mk,
+			fmt.Sprintf("m := map[string]%s{\"k\": a}", T), "a."+path+" = 99",
+			"v, ok := m[\"k\"]", "fmt.Println(ok)", "if ok {", both("a", "v"), "}",
+			"v."+path+" = 7", "w, ok2 := m[\"k\"]", "fmt.Println(ok2)", "if ok2 {", both("v", "w"), "}",
+			"m[\"j\"] = a", "a."+path+" = 5", "u, ok3 := m[\"j\"]", "fmt.Println(ok3, len(m))", "if ok3 {", both("a", "u"), "}"))
+	}
+}
+
 // ---- functions --------------------------------------------------------------
 
 func (g *gen) functions() {
@@ -1317,6 +1372,7 @@ func generate(thorough bool) []*prog {
 	g.slices()
 	g.maps()
 	g.structs()
+	g.structCopies()
 	g.functions()
 	g.constBoundaries()
 	g.incdecTargets()
